@@ -655,6 +655,11 @@ func removesBraceLineComment(in *inst, o hop) bool {
 	if b == nil || len(b.Children) == 0 {
 		return false
 	}
+	// ... and it really is ON the brace line: the block's tokens in front of the body do not end the line
+	// (`b {` newline `# c` is an ordinary lead comment on its own line: not the finding)
+	if _, open := bodyNodeAt(hclwrite.VerifDumpFile(in.f), o.Path); endsLine(open) {
+		return false
+	}
 	first := b.Children[0]
 	ts := flatTokens(first)
 	if !first.InItems || len(ts) == 0 || ts[0].Type != hclsyntax.TokenComment {
@@ -671,6 +676,102 @@ func removesBraceLineComment(in *inst, o hop) bool {
 		return first.Kind == "Block" && o.Index == 0
 	}
 	return false
+}
+
+// bodyNodeAt finds, inside ONE dump, the body at path and the tokens of its block that precede it (the
+// opening brace; nil for the root body).
+func bodyNodeAt(d *hclwrite.VerifNode, path []int) (cur *hclwrite.VerifNode, open hclwrite.Tokens) {
+	defer func() {
+		if recover() != nil {
+			cur, open = nil, nil
+		}
+	}()
+	cur = d.Children[d.Handles["body"]]
+	for _, i := range path {
+		n := 0
+		var blk *hclwrite.VerifNode
+		for _, c := range cur.Children {
+			if c.Kind == "Block" && c.InItems {
+				if n == i {
+					blk = c
+					break
+				}
+				n++
+			}
+		}
+		if blk == nil {
+			return nil, nil
+		}
+		cur, open = nil, nil
+		for _, c := range blk.Children {
+			if c.Kind == "Body" {
+				cur = c
+				break
+			}
+			open = append(open, flatTokens(c)...)
+		}
+		if cur == nil {
+			return nil, nil
+		}
+	}
+	return cur, open
+}
+
+// repairedClean decides whether a reparse failure is explained by one of the two pinned line-break
+// findings and by nothing else: the tree of instance b is serialised again with the missing line breaks
+// put back - a newline after the opening brace of the body at path when the brace line is not terminated,
+// and (beforeLast) a newline in front of the body's last child, the item just appended - and that text
+// must parse and agree with the mirror in every respect checkReparse looks at.
+func repairedClean(b *inst, m *mirror, path []int, beforeLast bool) (clean bool) {
+	defer func() {
+		if recover() != nil {
+			clean = false
+		}
+	}()
+	d := hclwrite.VerifDumpFile(b.f)
+	target, open := bodyNodeAt(d, path)
+	if target == nil {
+		return false
+	}
+	afterBrace := len(path) > 0 && !endsLine(open)
+	if !afterBrace && !beforeLast {
+		return false
+	}
+	nl := func() *hclwrite.Token { return &hclwrite.Token{Type: hclsyntax.TokenNewline, Bytes: []byte{'\n'}} }
+	var toks hclwrite.Tokens
+	var walk func(n *hclwrite.VerifNode)
+	walk = func(n *hclwrite.VerifNode) {
+		if n == target {
+			if afterBrace {
+				toks = append(toks, nl())
+			}
+			for i, c := range n.Children {
+				if beforeLast && i == len(n.Children)-1 && !(afterBrace && i == 0) {
+					toks = append(toks, nl())
+				}
+				walk(c)
+			}
+			return
+		}
+		if len(n.Children) == 0 {
+			for _, t := range n.Tokens {
+				toks = append(toks, &hclwrite.Token{Type: t.Type, Bytes: t.Bytes, SpacesBefore: t.SpacesBefore})
+			}
+			return
+		}
+		for _, c := range n.Children {
+			walk(c)
+		}
+	}
+	walk(d)
+	hclwrite.VerifFormat(toks)
+	sf, diags := hclsyntax.ParseConfig(toks.Bytes(), "", hcl.InitialPos)
+	if diags.HasErrors() {
+		return false
+	}
+	var rf []oracleFail
+	checkReparse(sf.Body.(*hclsyntax.Body), m.root, "", &rf)
+	return len(rf) == 0
 }
 
 func collectProblems(n *hclwrite.VerifNode, path string, out *[]string) {
@@ -760,7 +861,7 @@ func runCase(c *tcase, emit bool, full bool) (res *caseResult) {
 		}
 	}
 	// the oracle on the initial file
-	report(0, oracleStep(b, m, nil, nil, nil, false))
+	report(0, oracleStep(b, m, nil, nil, nil, false, false))
 	for i, o := range c.Ops {
 		step := i + 1
 		res.steps = step
@@ -854,14 +955,7 @@ func runCase(c *tcase, emit bool, full bool) (res *caseResult) {
 		case opAppendNewBlock, opAppendBlock, opAppendRaw, opAppendNewline:
 			appendish = true
 		}
-		sfs := oracleStep(b, m, before, touched, &o, unterminated && appendish)
-		if braceComment {
-			for i := range sfs {
-				if sfs[i].kind == "reparse-error" || sfs[i].kind == "reparse-differs" {
-					sfs[i].kind = "remove-item-owning-brace-line-comment"
-				}
-			}
-		}
+		sfs := oracleStep(b, m, before, touched, &o, unterminated && appendish, braceComment)
 		fs = append(fs, sfs...)
 		report(step, fs)
 	}
@@ -880,7 +974,7 @@ func runCase(c *tcase, emit bool, full bool) (res *caseResult) {
 }
 
 // oracleStep checks the property on instance b after one step.
-func oracleStep(b *inst, m *mirror, before sigMap, touched map[any]bool, o *hop, unterminatedAppend bool) (fs []oracleFail) {
+func oracleStep(b *inst, m *mirror, before sigMap, touched map[any]bool, o *hop, unterminatedAppend, braceComment bool) (fs []oracleFail) {
 	defer func() {
 		if r := recover(); r != nil {
 			fs = append(fs, oracleFail{"panic", fmt.Sprintf("a reader panicked: %v", r)})
@@ -917,10 +1011,28 @@ func oracleStep(b *inst, m *mirror, before sigMap, touched map[any]bool, o *hop,
 	// serialise, parse again
 	out := b.f.Bytes()
 	sf, diags := hclsyntax.ParseConfig(out, "", hcl.InitialPos)
+	// A reparse failure gets one of the two known kinds only when the step has the call-site shape of the
+	// finding (computed on the pre-state by the caller) AND putting the missing line break(s) back makes
+	// the very same tree serialise to a text that parses and agrees with the mirror (repairedClean):
+	// anything else that is wrong with the output keeps the generic kind.
+	knownKind := ""
+	decided := false
+	known := func() string {
+		if !decided && o != nil {
+			decided = true
+			switch {
+			case unterminatedAppend && repairedClean(b, m, o.Path, true):
+				knownKind = "append-after-unterminated-item"
+			case braceComment && repairedClean(b, m, o.Path, false):
+				knownKind = "remove-item-owning-brace-line-comment"
+			}
+		}
+		return knownKind
+	}
 	if diags.HasErrors() {
 		kind := "reparse-error"
-		if unterminatedAppend {
-			kind = "append-after-unterminated-item"
+		if k := known(); k != "" {
+			kind = k
 		}
 		fs = append(fs, oracleFail{kind, fmt.Sprintf("%s in %q", diags.Error(), out)})
 		return fs
@@ -928,8 +1040,8 @@ func oracleStep(b *inst, m *mirror, before sigMap, touched map[any]bool, o *hop,
 	var rf []oracleFail
 	checkReparse(sf.Body.(*hclsyntax.Body), m.root, "", &rf)
 	for _, f := range rf {
-		if unterminatedAppend {
-			f.kind = "append-after-unterminated-item"
+		if k := known(); k != "" {
+			f.kind = k
 		}
 		f.detail += fmt.Sprintf(" in %q", out)
 		fs = append(fs, f)
